@@ -130,6 +130,7 @@ var sites = []siteSpec{
 	{"pkg/v3/stores/metadata_store.go", "metadataStore.SetBlockHistory"},
 	{"pkg/v3/runner/runner.go", "NewRunner"},
 	{"pkg/v3/plugin/plugin.go", "newPlugin"},
+	{"pkg/v3/plugin/delegate.go", "NewDelegate"},
 	{"pkg/v3/runner/runner.go", "Runner.wrapWorkerFunc"},
 	{"pkg/v2/encode.go", "encode"},
 	{"tools/simulator/simulate/ocr/report.go", "ReportTracker.run"},
